@@ -56,7 +56,7 @@ class Ctx:
 
 def walk(cx, root, path, e, exp):
     k = e["k"]
-    if exp is not None and closed(exp) and exp["t"] != "unit":
+    if exp is not None and closed(exp):
         cx.slots.append((root, list(path), exp))
     sub = lambda key, x, t: walk(cx, root, path + [key], x, t)
     subl = lambda key, i, x, t: walk(cx, root, path + [key, i], x, t)
